@@ -286,7 +286,11 @@ enum BCSerializer {
 impl BCSerializer {
     pub fn serialize(&self, program: &Program, sink: &mut NamedSink) -> Result<()> {
         match self {
-            BCSerializer::BYTES  => program.serialize(sink),
+            BCSerializer::BYTES  => {
+                program.serialize(sink)?;
+                sink.flush()?;      // buffered bytes that cannot be delivered are an error, not a success
+                Ok(())
+            }
             BCSerializer::STRING => unimplemented!(),
         }
     }
